@@ -35,7 +35,7 @@ def enumerate_cases(tier, scope):
         max_gap = {1: 8, 2: 6, 3: 4}[k]
         for name in ('async2', 'wait1', 'chain', 'waitwait', 'failing', 'selfkill', 'sync3'):
             for sched in gen.schedules(ALPHABET, k, max_gap):
-                yield {'program': cat[name], 'schedule': sched, 'tag': f'{scope}:{name}'}
+                yield {'program': cat[name], 'schedule': sched, 'tag': f'{scope}:{name}', 'listener_twice': True, 'cleanup_follow_up': True}
     elif scope == 'k4w':
         for name in ('wait1', 'waitwait', 'async2'):
             for sched in gen.schedules(ALPHABET, 4, 1):
@@ -47,7 +47,7 @@ def enumerate_cases(tier, scope):
                     for pos in ('pre', 'post'):
                         for do in (['kill', 'hk'], ['pause', 'hp']):
                             for raising in (None, 0, 1):
-                                yield {'program': cat[name], 'schedule': [['tick', 2], ['pause', 'p']], 'hooks': [{'hook': hook, 'occ': occ, 'pos': pos, 'do': do}], 'cleanup_raises': raising}
+                                yield {'program': cat[name], 'schedule': [['tick', 2], ['pause', 'p']], 'hooks': [{'hook': hook, 'occ': occ, 'pos': pos, 'do': do}], 'cleanup_raises': raising, 'listener_twice': occ == 2, 'cleanup_follow_up': pos == 'post'}
     elif scope == 'listener':
         notifs = ['on_process_running', 'on_process_waiting', 'on_process_paused', 'on_process_played', 'on_output_emitted']
         for name in ('wait1', 'chain', 'waitwait', 'async2'):
@@ -70,6 +70,8 @@ def _cases(draw, tier):
         case['hooks'] = draw(gen.hook_plans(['kill', 'pause', 'play']))
     if draw(st.integers(0, 2)) == 0:
         case['cleanup_raises'] = draw(st.integers(0, 2))
+    case['listener_twice'] = draw(st.booleans())
+    case['cleanup_follow_up'] = draw(st.booleans())
     return case
 
 
@@ -165,6 +167,11 @@ def execute(case):
             calls = [c.calls for c in ex.cleanups]
             if calls != [1, 1, 1]:
                 v('cleanups', f'cleanup call counts {calls}')
+            if ex.follow_up is not None and ex.cleanups[0].calls:
+                if ex.cleanups[0].follow_up_error is not None:
+                    v('cleanup-registration-refused', f'add_cleanup() from a running cleanup raised {ex.cleanups[0].follow_up_error!r}')
+                elif ex.follow_up.calls != 1:
+                    v('cleanups', f'a cleanup registered by a running cleanup (the process was not closed yet) ran {ex.follow_up.calls} times')
             if views['closed'] is not True:
                 v('not-closed', f"add_cleanup after termination: closed={views['closed']}")
             # step_until_terminated() returned
